@@ -544,6 +544,8 @@ def c19_arguments(tier="quick", seed=0):
         ("JSON.stringify(JSON.parse('[1,2,3]', function (k, v) { if (k === '0') this.length = 1; return v }))", "[1]"),
         ("JSON.stringify(JSON.parse('{\"a\":[1,2]}', function (k, v) { if (k === '0') this.shift(); return v }))", '{"a":[1]}'),
         ("JSON.stringify(JSON.parse('[1,2,3]', function (k, v) { if (k === '0') this.pop(); return v }))", "[1,2]"),
+        ("JSON.stringify(JSON.parse('{\"a\":[1,2]}', function (k, v) { if (k === '0') this.length = 0; return v }))", '{"a":[1]}'),
+        ("JSON.stringify(JSON.parse('[[1,2],3]', function (k, v) { if (k === '0' && Array.isArray(this[0])) this.length = 0; return v }))", "[[1,2]]"),
         ("JSON.stringify(JSON.parse('[1,2]', function (k, v) { if (k === '0') this.push(9); return v }))", "[1,2,9]"),
         ("JSON.stringify(JSON.parse('{\"a\":1,\"b\":2}', function (k, v) { if (k === 'a') delete this.b; return v }))", '{"a":1}'),
     ]
